@@ -271,8 +271,11 @@ func exprArgs(c *ast.CallExpr) string {
 // trimHelper: func(s string) string { return strings.TrimLeft|TrimRight(s, "<cutset>") }.
 // Returns "left"/"right" and the cut set.
 func (w *World) trimHelper(fd *ast.FuncDecl) (dir string, cut string, ok bool) {
-	if fd.Body == nil || len(fd.Body.List) != 1 {
+	if fd.Body == nil {
 		return "", "", false
+	}
+	if len(fd.Body.List) != 1 {
+		return w.scanTrimHelper(fd)
 	}
 	ret, isRet := fd.Body.List[0].(*ast.ReturnStmt)
 	if !isRet || len(ret.Results) != 1 {
@@ -809,4 +812,141 @@ func checkTrimLocality(w *World, r *Report, passes map[*types.Func]bool, helpers
 		})
 	}
 	r.Counts["trim stores checked for locality"] = n
+}
+
+// scanTrimHelper: a hand-written trim — func(s string) string whose every result is s, s[i:] or
+// s[:n], with the bound found by a loop that tests bytes of s.  The cut set is the set of
+// constants the bytes are compared with for (in)equality; any other test of a byte (`<= ' '`,
+// a call such as unicode.IsSpace) is reported as a non-constant set.
+func (w *World) scanTrimHelper(fd *ast.FuncDecl) (dir string, cut string, ok bool) {
+	obj, _ := w.Info.Defs[fd.Name].(*types.Func)
+	if obj == nil {
+		return "", "", false
+	}
+	sig := obj.Type().(*types.Signature)
+	if sig.Recv() != nil || sig.Params().Len() != 1 || sig.Results().Len() != 1 ||
+		!types.Identical(sig.Params().At(0).Type(), types.Typ[types.String]) || !types.Identical(sig.Results().At(0).Type(), types.Typ[types.String]) {
+		return "", "", false
+	}
+	fn := w.ssaFunc(obj)
+	if fn == nil || len(fn.Params) != 1 {
+		return "", "", false
+	}
+	p := fn.Params[0]
+	left, right, other := false, false, false
+	nRet := 0
+	instrsOf(fn, func(in ssa.Instruction) {
+		ret, isRet := in.(*ssa.Return)
+		if !isRet {
+			return
+		}
+		nRet++
+		var classify func(v ssa.Value, d int)
+		classify = func(v ssa.Value, d int) {
+			switch x := v.(type) {
+			case *ssa.Parameter:
+				if x != p {
+					other = true
+				}
+			case *ssa.Slice:
+				if x.X != ssa.Value(p) {
+					other = true
+					return
+				}
+				if x.Low != nil {
+					left = true
+				}
+				if x.High != nil {
+					right = true
+				}
+			case *ssa.Phi:
+				if d > 3 {
+					other = true
+					return
+				}
+				for _, e := range x.Edges {
+					classify(e, d+1)
+				}
+			case *ssa.Const:
+				// "" for an all-blank input
+			default:
+				other = true
+			}
+		}
+		classify(retResults(ret)[0], 0)
+	})
+	if other || nRet == 0 || left == right {
+		return "", "", false
+	}
+	dir = "left"
+	if right {
+		dir = "right"
+	}
+	// byte tests
+	set := map[rune]bool{}
+	odd := ""
+	isByteOfS := func(v ssa.Value) bool {
+		for k := 0; k < 3; k++ {
+			switch x := v.(type) {
+			case *ssa.Convert:
+				v = x.X
+				continue
+			case *ssa.Index:
+				return x.X == ssa.Value(p)
+			case *ssa.Lookup:
+				return x.X == ssa.Value(p)
+			}
+			break
+		}
+		return false
+	}
+	nTests := 0
+	instrsOf(fn, func(in ssa.Instruction) {
+		switch x := in.(type) {
+		case *ssa.BinOp:
+			a, b := x.X, x.Y
+			if !isByteOfS(a) {
+				a, b = b, a
+			}
+			if !isByteOfS(a) {
+				return
+			}
+			nTests++
+			c, isC := b.(*ssa.Const)
+			if !isC || c.Value == nil || c.Value.Kind() != constant.Int {
+				odd = "<bytes compared with a non-constant>"
+				return
+			}
+			if x.Op != token.EQL && x.Op != token.NEQ {
+				kv, _ := constant.Int64Val(c.Value)
+				odd = fmt.Sprintf("<every byte %s %q>", x.Op, rune(kv))
+				return
+			}
+			kv, _ := constant.Int64Val(c.Value)
+			set[rune(kv)] = true
+		case ssa.CallInstruction:
+			for _, a := range x.Common().Args {
+				if isByteOfS(a) {
+					nTests++
+					name := "a function"
+					if f := calleeFunc(x); f != nil {
+						name = f.FullName()
+					}
+					odd = "<bytes classified by " + name + ">"
+				}
+			}
+		}
+	})
+	if nTests == 0 {
+		return "", "", false
+	}
+	if odd != "" {
+		return dir, odd, true
+	}
+	var rs []rune
+	for c := range set {
+		rs = append(rs, c)
+	}
+	sort.Slice(rs, func(i, j int) bool { return rs[i] < rs[j] })
+	return dir, string(rs), true
 }
